@@ -1300,6 +1300,18 @@ class ManifestRecursiveLoader:
                 if fe is not None:
                     if fe.tag == 'IGNORE':
                         continue
+                    if fe.tag != 'MANIFEST' and fpath in new_manifests:
+                        # so far listed as a plain file, but we have
+                        # just adopted it as a Manifest: it needs to be
+                        # referenced as one
+                        entries = self.loaded_manifests[mpath].entries
+                        for i, oe in enumerate(entries):
+                            if oe is fe:
+                                fe = ManifestEntryMANIFEST(
+                                    fe.path, fe.size, fe.checksums)
+                                entries[i] = fe
+                                self.updated_manifests.add(mpath)
+                                break
                     if fe.tag == 'MANIFEST':
                         linked_manifests.add(fpath)
                         manifest_stack.append(
